@@ -5,8 +5,8 @@ use educe::Educe;
 use core::cmp::Ordering;
 #[derive(Educe)]
 #[educe(PartialEq)]
-pub struct T(A<0>, #[educe(PartialEq(ignore = true))] A<1>);
-pub fn values() -> Vec<T> { vec![T(A(0), A(0)), T(A(0), A(1)), T(A(0), A(7)), T(A(1), A(0)), T(A(1), A(1)), T(A(1), A(7)), T(A(7), A(0)), T(A(7), A(1)), T(A(7), A(7))] }
-pub fn show(x: &T) -> String { #[allow(unused_variables)] match x { T(p0, p1) => format!("T({},{})", sv(p0), sv(p1)) } }
-pub fn o_eq(a: &T, b: &T) -> bool { match (a, b) { (T(a0, a1), T(b0, b1)) => (a0 == b0) } }
+pub struct T { #[educe(PartialEq = true)] arg: A<0>, data: A<1>, #[educe(PartialEq(method = m_eq))] state: A<0> }
+pub fn values() -> Vec<T> { vec![T { arg: A(0), data: A(0), state: A(0) }, T { arg: A(0), data: A(0), state: A(1) }, T { arg: A(0), data: A(0), state: A(7) }, T { arg: A(0), data: A(1), state: A(0) }, T { arg: A(0), data: A(1), state: A(1) }, T { arg: A(0), data: A(1), state: A(7) }, T { arg: A(0), data: A(7), state: A(0) }, T { arg: A(0), data: A(7), state: A(1) }, T { arg: A(0), data: A(7), state: A(7) }, T { arg: A(1), data: A(0), state: A(0) }, T { arg: A(1), data: A(0), state: A(1) }, T { arg: A(1), data: A(0), state: A(7) }, T { arg: A(1), data: A(1), state: A(0) }, T { arg: A(1), data: A(1), state: A(1) }, T { arg: A(1), data: A(1), state: A(7) }, T { arg: A(1), data: A(7), state: A(0) }, T { arg: A(1), data: A(7), state: A(1) }, T { arg: A(1), data: A(7), state: A(7) }, T { arg: A(7), data: A(0), state: A(0) }, T { arg: A(7), data: A(0), state: A(1) }, T { arg: A(7), data: A(0), state: A(7) }, T { arg: A(7), data: A(1), state: A(0) }, T { arg: A(7), data: A(1), state: A(1) }, T { arg: A(7), data: A(1), state: A(7) }, T { arg: A(7), data: A(7), state: A(0) }, T { arg: A(7), data: A(7), state: A(1) }, T { arg: A(7), data: A(7), state: A(7) }] }
+pub fn show(x: &T) -> String { #[allow(unused_variables)] match x { T { arg: p0, data: p1, state: p2 } => format!("T({},{},{})", sv(p0), sv(p1), sv(p2)) } }
+pub fn o_eq(a: &T, b: &T) -> bool { match (a, b) { (T { arg: a0, data: a1, state: a2 }, T { arg: b0, data: b1, state: b2 }) => (a0 == b0) && (a1 == b1) && m_eq(a2, b2) } }
 pub fn run(out: &mut Out) { let vs = values(); for a in &vs { for b in &vs { let e = o_eq(a, b); out.check((a == b) == e, "eq_12", "eq", || format!("{} == {} expected {}", show(a), show(b), e)); out.check((a != b) == !e, "eq_12", "ne", || format!("{} != {} expected {}", show(a), show(b), !e)); } } }
